@@ -1978,6 +1978,20 @@ val spec_sh : serverHelloC -> byte list
 
 val spec_hello_line : byte list list -> byte list
 
+val ext_type_arms : (string * string option) list
+
+val variant_name : tlsExtension -> string
+
+val assoc_str : string -> (string * 'a1) list -> 'a1 option
+
+val bound_type : tlsExtension -> n option
+
+val ext_type_of : tlsExtension -> n option
+
+val run_exttype_line : byte list list -> byte list
+
+val spec_exttype_line : byte list list -> byte list
+
 val all_entries : (string * entry_fn) list
 
 val find_entry : byte list -> (string * entry_fn) list -> entry_fn option
